@@ -129,6 +129,8 @@ fn case_typed<S: Spec>(sub: &str, id: u64, r: &mut Report) {
         // source RNG delivering k all-zero blocks, then data (or zeros forever)
         "from_rng" => {
             let k = if p.chance(1, 2) { p.below(5) as usize } else { *p.pick(&ZERO_BLOCK_COUNTS) };
+            // (only XorShiftRng redraws; the others read one block, so huge runs add nothing)
+            let k = if is_xorshift { k } else { k.min(1001) };
             let all_zero_source = !is_xorshift && p.chance(1, 5);
             let mut data = vec![0u8; k * S::SEED_LEN];
             if !all_zero_source {
@@ -144,6 +146,22 @@ fn case_typed<S: Spec>(sub: &str, id: u64, r: &mut Report) {
             let mut src = SourceRng::new(data.clone());
             let g = S::R::from_rng(&mut src);
             let ok1 = nonzero::<S>(&g, "from_rng", desc.clone(), sub, id, r);
+            // "every other seed is used verbatim": the state is the first block delivered
+            // (XorShiftRng: the first NON-ZERO block), unless that block is all zero
+            if !all_zero_source {
+                let off = if is_xorshift { k * S::SEED_LEN } else { 0 };
+                let block = &data[off..off + S::SEED_LEN];
+                if block.iter().any(|&b| b != 0) {
+                    r.eval();
+                    if image::<S>(&g) != block {
+                        let mut d = desc.clone();
+                        d["block_delivered"] = json!(hex(block));
+                        d["state_image"] = json!(hex(&image::<S>(&g)));
+                        r.violation(format!("{}:from_rng:block_not_used_verbatim", S::NAME), sub, id, d);
+                        return;
+                    }
+                }
+            }
             // a fallible source that delivers zero blocks and then starts failing:
             // the result must be the error, or at any rate never a zero-state generator
             {
